@@ -2,6 +2,7 @@
 package c08
 
 import (
+	"sync"
 	"crypto/x509"
 	"encoding/pem"
 	"fmt"
@@ -377,6 +378,17 @@ func runCaseOnce(c c08Case, patience int) *vh.Failure {
 			if err := pkggen.CapEqual(*cp, res.Conn.Caps); err != nil {
 				return vh.Failf("C08/capabilities-not-adopted", "%s: Conn.Caps after login: %v", where, err)
 			}
+			// ... and it stays that connection's set, whatever other connections of the process
+			// negotiate later
+			prevMu.Lock()
+			if prevConn != nil {
+				if err := pkggen.CapEqual(prevCaps, prevConn.Caps); err != nil {
+					prevMu.Unlock()
+					return vh.Failf("C08/capabilities-changed-by-a-later-login", "%s: the capability set of the connection logged in BEFORE this one no longer is what its server returned: %v", where, err)
+				}
+			}
+			prevConn, prevCaps = res.Conn, *cp
+			prevMu.Unlock()
 		}
 		if want := announcedPackSize(c.Script); res.Conn.PacketSize() != want {
 			return vh.Failf("C08/packet-size-not-adopted", "%s: PacketSize() = %d, server announced %d", where, res.Conn.PacketSize(), want)
@@ -700,6 +712,23 @@ func TestRandomScripts(t *testing.T) {
 			ps = rapid.SampledFrom([]int{512, 1024, 2048, 4096, 16384, 32767, 32768, 40000, 65535, 256, 513}).Draw(rt, "ps")
 		}
 		s := validScript(plain, key, nonce, rapid.Bool().Draw(rt, "widefmt"), extras, ps)
+		if !plain && rapid.Bool().Draw(rt, "owncaps") {
+			// every server has its own capability set
+			for i := range s.R2 {
+				if s.R2[i].Cap == nil {
+					continue
+				}
+				req := rc.CapMask{Type: 1, Mask: make([]byte, 14)}
+				res := rc.CapMask{Type: 2, Mask: make([]byte, 8)}
+				for k := rapid.IntRange(1, 12).Draw(rt, "nreq"); k > 0; k-- {
+					req.Set(rapid.IntRange(1, 105).Draw(rt, "reqbit"))
+				}
+				for k := rapid.IntRange(1, 6).Draw(rt, "nres"); k > 0; k-- {
+					res.Set(rapid.IntRange(1, 55).Draw(rt, "resbit"))
+				}
+				s.R2[i] = rc.P{Cap: &rc.Capability{Masks: []rc.CapMask{req, res}}}
+			}
+		}
 		cfg := baseCfg(plain)
 		cfg.Password = pkggen.Str(rt, "password", 30)
 		if room := key.Capacity() - len(nonce); len(cfg.Password) > room {
@@ -746,3 +775,10 @@ func TestRandomScripts(t *testing.T) {
 }
 
 var _ = tds.TDS_LOG_SUCCEED
+
+// the connection of the last accepted encrypted login of this process and what its server returned
+var (
+	prevMu   sync.Mutex
+	prevConn *tds.Conn
+	prevCaps rc.Capability
+)
